@@ -252,6 +252,46 @@ def _inside(node, root):
 TYPE_GUARDS = ("is_table(", "isinstance(", " is None", "hasattr(")
 
 
+def _is_collected_schema_error(f, base) -> bool:
+    """Is `base` bound to a collected SchemaError?  Decided by what it is bound to - an element of `<x>.schema_errors` /
+    `.collected_errors` / a parameter or local list of schema errors, or the name of an `except SchemaError` handler -
+    never by how the variable is called."""
+    if not isinstance(base, ast.Name):
+        return False
+    name = base.id
+    scopes = [f]
+    p = getattr(f, "parent", None)
+    while p is not None:
+        scopes.append(p)
+        p = getattr(p, "parent", None)
+    for g in scopes:
+        ann = g.annotations().get(name) if hasattr(g, "annotations") else None
+        if ann is not None and "SchemaError" in txt(ann):
+            return True
+        for n in walk_no_nested(g.node):
+            if isinstance(n, ast.ExceptHandler) and n.name == name and n.type is not None and "SchemaError" in txt(n.type):
+                return True
+            if isinstance(n, (ast.For, ast.comprehension)):
+                tgt = [x.id for x in ast.walk(n.target) if isinstance(x, ast.Name)]
+                if name not in tgt:
+                    continue
+                it = n.iter
+                while isinstance(it, ast.Call) and it.args and isinstance(it.func, ast.Name) and it.func.id in ("enumerate", "list", "reversed", "sorted"):
+                    it = it.args[0]
+                t = txt(it)
+                if "schema_errors" in t or "collected_errors" in t:
+                    return True
+                if isinstance(it, ast.Name):
+                    a2 = g.annotations().get(it.id) if hasattr(g, "annotations") else None
+                    if a2 is not None and "SchemaError" in txt(a2):
+                        return True
+                    for m in walk_no_nested(g.node):
+                        if isinstance(m, ast.Assign) and len(m.targets) == 1 and isinstance(m.targets[0], ast.Name) and m.targets[0].id == it.id \
+                                and ("schema_errors" in txt(m.value) or "collected_errors" in txt(m.value)):
+                            return True
+    return False
+
+
 def r3_typestate(ctx):
     """Uses of err.failure_cases / err.check_output as a frame while folding over collected errors."""
     ix = ctx.ix
@@ -278,9 +318,8 @@ def r3_typestate(ctx):
                             break
                 if attr is None:
                     continue
-                base = txt(attr.value)
-                if base in ("self", "result", "check_result", "exc", "parser_result"):
-                    continue  # not a collected SchemaError (CheckResult / ParserError objects)
+                if not _is_collected_schema_error(f, attr.value):
+                    continue  # a CheckResult / ParserError / anything that is not one of the collected SchemaErrors
                 cfg = cfg or cfg_of(f.node)
                 st = enclosing_stmt(n)
                 node = cfg.node_of(st)
